@@ -1,7 +1,8 @@
 (** C08: the weighted statement on the domain of the property. *)
 From Coq Require Import String NArith ZArith QArith Bool Arith List Permutation.
 From GT Require Import Base.UTree Spec.Obs Spec.CompareSpec Model.Reroot Model.Compare
-     Proofs.IndexSplit Proofs.CompareMain Proofs.CompareDomain Proofs.CompareDupfree Proofs.CompareWeighted.
+     Model.Index Model.EdgeIndex Proofs.IndexSplit Proofs.CompareMain Proofs.CompareDomain Proofs.CompareDupfree Proofs.CompareWeighted
+     Proofs.CompareBridge.
 Import ListNotations.
 Local Close Scope Q_scope.
 
@@ -20,4 +21,30 @@ Proof.
   - now apply unrooted_dupfree.
   - now apply unrooted_tipflags.
   - now apply unrooted_tipflags.
+Qed.
+
+(** the same statements about the model over the real hash index: whenever it returns, it
+    returns the set algebra of the splits *)
+Corollary compare_hm_counts_unrooted tips t1 t2 r :
+  unrooted t1 -> unrooted t2 -> Permutation (leaves t1) (leaves t2) ->
+  (N.of_nat (length (branch_keys 0 t1) * 2) < W64)%N ->
+  compare_hm tips false t1 t2 = Some r ->
+  r = Ok (mkBS (Z.of_nat (c_only1 (spec_counts tips t1 t2))) (Z.of_nat (c_only2 (spec_counts tips t1 t2)))
+               (Z.of_nat (c_both (spec_counts tips t1 t2))) (spec_identical tips t1 t2) EmptyString).
+Proof.
+  intros U1 U2 P B H. apply compare_hm_refines in H; auto; try apply U1; try apply U2.
+  rewrite (compare_counts_unrooted tips t1 t2 U1 U2 P) in H. now inversion H.
+Qed.
+
+Corollary compare_weighted_hm_unrooted tips t1 t2 r :
+  unrooted t1 -> unrooted t2 -> Permutation (leaves t1) (leaves t2) ->
+  (N.of_nat (length (branch_keys 0 t1) * 2) < W64)%N ->
+  (N.of_nat (length (branch_keys 1 t2) * 2) < W64)%N ->
+  compare_weighted_hm tips false t1 t2 = Some r ->
+  r = Ok (mkWS (spec_w_only1 tips t1 t2) (spec_w_only2 tips t1 t2) (spec_w_common tips t1 t2)
+               (Nat.eqb (length (spec_w_only1 tips t1 t2)) 0 && Nat.eqb (length (spec_w_only2 tips t1 t2)) 0
+                && all_zero (spec_w_common tips t1 t2)) EmptyString).
+Proof.
+  intros U1 U2 P B1 B2 H. apply compare_weighted_hm_refines in H; auto; try apply U1; try apply U2.
+  rewrite (compare_weighted_unrooted tips t1 t2 U1 U2 P) in H. now inversion H.
 Qed.
